@@ -72,8 +72,10 @@ VARIABLES
   \* @type: Int;
   nextId,     \* fresh position ids
   \* @type: Int;
-  ngo         \* go commands accepted so far
-vars == <<nread, io, board, table, flagOver, left, chan, best, srch, root, sent, started, pending, out, nextId, ngo>>
+  ngo,        \* go commands accepted so far
+  \* @type: Bool;
+  orphan      \* the search thread of an ANSWERED go is still alive (it has not looked at the clock since the deadline)
+vars == <<nread, io, board, table, flagOver, left, chan, best, srch, root, sent, started, pending, out, nextId, ngo, orphan>>
 
 Pos(id, n) == [id |-> id, n |-> n]
 NoBest == [pos |-> -1, mv |-> 0]
@@ -81,18 +83,18 @@ Line(t, a, b) == [t |-> t, a |-> a, b |-> b]
 
 Init == /\ nread = 0 /\ io = "read" /\ board = Pos(0, MaxMoves) /\ table = <<>> /\ flagOver = FALSE
         /\ left = 0 /\ chan = <<>> /\ best = NoBest /\ srch = "none" /\ root = Pos(0, 0) /\ sent = 0 /\ started = FALSE
-        /\ pending = "none" /\ out = <<>> /\ nextId = 1 /\ ngo = 0
+        /\ pending = "none" /\ out = <<>> /\ nextId = 1 /\ ngo = 0 /\ orphan = FALSE
 
 (***************************************************************************)
 (* I/O thread: read one line and dispatch.                                 *)
 (***************************************************************************)
 IsReady == /\ io = "read" /\ nread < MaxCmds /\ nread' = nread + 1
            /\ out' = Append(out, Line("readyok", 0, 0))
-           /\ UNCHANGED <<io, board, table, flagOver, left, chan, best, srch, root, sent, started, pending, nextId, ngo>>
+           /\ UNCHANGED <<io, board, table, flagOver, left, chan, best, srch, root, sent, started, pending, nextId, ngo, orphan>>
 
 \* unknown command, empty line, ucinewgame, setoption: nothing changes
 Ignored == /\ io = "read" /\ nread < MaxCmds /\ nread' = nread + 1
-           /\ UNCHANGED <<io, board, table, flagOver, left, chan, best, srch, root, sent, started, pending, out, nextId, ngo>>
+           /\ UNCHANGED <<io, board, table, flagOver, left, chan, best, srch, root, sent, started, pending, out, nextId, ngo, orphan>>
 
 \* position X: the record is cleared and rebuilt, the board replaced: a function of the command alone
 Position == /\ io = "read" /\ nread < MaxCmds /\ nread' = nread + 1
@@ -101,7 +103,7 @@ Position == /\ io = "read" /\ nread < MaxCmds /\ nread' = nread + 1
                  /\ flagOver' = (n = 0)
             /\ table' = <<nextId>>
             /\ nextId' = nextId + 1
-            /\ UNCHANGED <<io, left, chan, best, srch, root, sent, started, pending, out, ngo>>
+            /\ UNCHANGED <<io, left, chan, best, srch, root, sent, started, pending, out, ngo, orphan>>
 
 Terminal == IF BugStaleGameOver THEN flagOver ELSE board.n = 0
 
@@ -109,7 +111,7 @@ Terminal == IF BugStaleGameOver THEN flagOver ELSE board.n = 0
 GoTerminal == /\ io = "read" /\ nread < MaxCmds /\ nread' = nread + 1 /\ ngo' = ngo + 1
               /\ Terminal /\ ~BugNoAnswerWhenNoMoves
               /\ out' = Append(out, Line("bestmove", board.id, 0))
-              /\ UNCHANGED <<io, board, table, flagOver, left, chan, best, srch, root, sent, started, pending, nextId>>
+              /\ UNCHANGED <<io, board, table, flagOver, left, chan, best, srch, root, sent, started, pending, nextId, orphan>>
 
 \* go: slice computed, deadline set, search thread spawned on a copy of board and table
 GoAccept == /\ io = "read" /\ nread < MaxCmds /\ nread' = nread + 1 /\ ngo' = ngo + 1
@@ -118,21 +120,21 @@ GoAccept == /\ io = "read" /\ nread < MaxCmds /\ nread' = nread + 1 /\ ngo' = ng
             /\ io' = "poll" /\ best' = NoBest /\ srch' = "run" /\ root' = board /\ sent' = 0 /\ started' = FALSE
             /\ chan' = IF BugSharedChannel THEN chan ELSE <<>>
             /\ pending' = "go"
-            /\ UNCHANGED <<board, table, flagOver, out, nextId>>
+            /\ UNCHANGED <<board, table, flagOver, out, nextId, orphan>>
 
 Quit == /\ io = "read" /\ nread < MaxCmds /\ nread' = nread + 1 /\ io' = "dead"
-        /\ UNCHANGED <<board, table, flagOver, left, chan, best, srch, root, sent, started, pending, out, nextId, ngo>>
+        /\ UNCHANGED <<board, table, flagOver, left, chan, best, srch, root, sent, started, pending, out, nextId, ngo, orphan>>
 
 Eof == /\ io = "read" /\ nread = MaxCmds
        /\ IF BugEofSpins THEN UNCHANGED io ELSE io' = "dead"
-       /\ UNCHANGED <<nread, board, table, flagOver, left, chan, best, srch, root, sent, started, pending, out, nextId, ngo>>
+       /\ UNCHANGED <<nread, board, table, flagOver, left, chan, best, srch, root, sent, started, pending, out, nextId, ngo, orphan>>
 
 (***************************************************************************)
 (* I/O thread: the polling loop `while !out_of_time || best_move.is_none()`*)
 (***************************************************************************)
 PollRecv == /\ io = "poll" /\ chan # <<>>
             /\ best' = Head(chan) /\ chan' = Tail(chan)
-            /\ UNCHANGED <<nread, io, board, table, flagOver, left, srch, root, sent, started, pending, out, nextId, ngo>>
+            /\ UNCHANGED <<nread, io, board, table, flagOver, left, srch, root, sent, started, pending, out, nextId, ngo, orphan>>
 
 \* leaves the loop only when the deadline has passed AND a board was received; prints it and adopts it
 PollExit == /\ io = "poll" /\ left = 0 /\ best # NoBest
@@ -140,10 +142,11 @@ PollExit == /\ io = "poll" /\ left = 0 /\ best # NoBest
             /\ \E n \in 0..MaxMoves : board' = Pos(nextId, n)      \* the position after the engine's own move
             /\ nextId' = nextId + 1
             /\ io' = "read" /\ pending' = "none"
+            /\ orphan' = (srch = "run")
             /\ UNCHANGED <<nread, table, flagOver, left, chan, best, srch, root, sent, started, ngo>>
 
 Tick == /\ io = "poll" /\ left > 0 /\ left' = left - 1
-        /\ UNCHANGED <<nread, io, board, table, flagOver, chan, best, srch, root, sent, started, pending, out, nextId, ngo>>
+        /\ UNCHANGED <<nread, io, board, table, flagOver, chan, best, srch, root, sent, started, pending, out, nextId, ngo, orphan>>
 
 (***************************************************************************)
 (* Search thread (boundary behaviour of get_best_move).                    *)
@@ -154,11 +157,11 @@ Send(mv) == chan' = Append(chan, [pos |-> root.id, mv |-> mv])
 SrchImprove == /\ srch = "run" /\ root.n > 0 /\ left > 0 /\ sent < MaxSends
                /\ \E m \in 1..root.n : Send(m)
                /\ sent' = sent + 1 /\ started' = TRUE
-               /\ UNCHANGED <<nread, io, board, table, flagOver, left, best, srch, root, pending, out, nextId, ngo>>
+               /\ UNCHANGED <<nread, io, board, table, flagOver, left, best, srch, root, pending, out, nextId, ngo, orphan>>
 
 \* the first root move is being searched when nothing has been accepted yet
 SrchStart == /\ srch = "run" /\ root.n > 0 /\ ~started /\ started' = TRUE
-             /\ UNCHANGED <<nread, io, board, table, flagOver, left, chan, best, srch, root, sent, pending, out, nextId, ngo>>
+             /\ UNCHANGED <<nread, io, board, table, flagOver, left, chan, best, srch, root, sent, pending, out, nextId, ngo, orphan>>
 
 \* deadline seen at the head of the root loop: fallback send if nothing was sent, then return
 SrchStop == /\ srch = "run" /\ root.n > 0 /\ left = 0
@@ -166,14 +169,21 @@ SrchStop == /\ srch = "run" /\ root.n > 0 /\ left = 0
                THEN Send(1) /\ sent' = 1
                ELSE UNCHANGED <<chan, sent>>
             /\ srch' = "done"
-            /\ UNCHANGED <<nread, io, board, table, flagOver, left, best, root, started, pending, out, nextId, ngo>>
+            /\ UNCHANGED <<nread, io, board, table, flagOver, left, best, root, started, pending, out, nextId, ngo, orphan>>
 
 \* no root moves: the thread returns without sending
 SrchNoMoves == /\ srch = "run" /\ root.n = 0 /\ srch' = "done"
-               /\ UNCHANGED <<nread, io, board, table, flagOver, left, chan, best, root, sent, started, pending, out, nextId, ngo>>
+               /\ UNCHANGED <<nread, io, board, table, flagOver, left, chan, best, root, sent, started, pending, out, nextId, ngo, orphan>>
+
+\* The named deviation of the design (SrchSendAfterClose): the thread of an answered go passed its clock test just before
+\* the deadline; it prints ONE more info line (and sends into a channel nobody reads any more, where it dies), at any
+\* later moment - possibly while the next go is already being served.  TraceUci tolerates exactly this (Foreign).
+OrphanLastLine == /\ orphan /\ orphan' = FALSE
+                  /\ out' = Append(out, Line("info-of-previous-search", root.id, 0))
+                  /\ UNCHANGED <<nread, io, board, table, flagOver, left, chan, best, srch, root, sent, started, pending, nextId, ngo>>
 
 IoStep == IsReady \/ Ignored \/ Position \/ GoTerminal \/ GoAccept \/ Quit \/ Eof \/ PollRecv \/ PollExit
-SrchStep == SrchImprove \/ SrchStart \/ SrchStop \/ SrchNoMoves
+SrchStep == SrchImprove \/ SrchStart \/ SrchStop \/ SrchNoMoves \/ OrphanLastLine
 Next == IoStep \/ Tick \/ SrchStep
 
 Fairness == /\ WF_vars(IsReady \/ Ignored \/ Position \/ GoTerminal \/ GoAccept \/ Quit \/ Eof)
@@ -198,6 +208,12 @@ TypeOk == /\ io \in {"read", "poll", "dead"} /\ left \in 0..MaxSlice /\ sent \in
           /\ pending \in {"none", "go"} /\ srch \in {"none", "run", "done"}
 \* C16 (structural): right after a position command board and record depend on that command only
 RecordFresh == table = <<>> \/ Len(table) = 1
+
+\* C18 (model level): between two answers at most one line of an earlier search is printed
+StaleLines(i, j) == Cardinality({k \in i..j : out[k].t = "info-of-previous-search"})
+AtMostOneStaleLinePerGo ==
+  \A i, j \in 1..Len(out) :
+    (i < j /\ out[i].t = "bestmove" /\ out[j].t = "bestmove" /\ \A k \in (i + 1)..(j - 1) : out[k].t # "bestmove") => StaleLines(i, j) <= 1
 
 \* liveness: C08 every go is answered; C17 the process ends after quit / end of input
 GoAnswered == (pending = "go") ~> (pending = "none")
